@@ -13,10 +13,12 @@ MUTANTS = [
     ('power without conjugate', [(E + 'power', "np.conj (self.current)", "self.current")], ['power-formula']),
     ('power uses magnitude of product', [(E + 'power', "(0.5 * self.voltage * np.conj (self.current)).real", "abs (0.5 * self.voltage * np.conj (self.current))")], ['power-formula']),
     ('load weight not doubled on grounded pulse', [(M + 'compute_impedance_matrix_loads', "                    f2 *= 2\n", "                    pass\n")], ['weight', 'grounded']),
+    ('vertical test with a tolerance', [('pulse.Pulse.is_non_vertical_grounded', "        return (   (self.ground [0] or self.ground [1])\n               and (self.segs [0].dirvec [0] or self.segs [0].dirvec [1])\n               )", "        return bool (self.ground.any () and np.hypot (self.segs [0].dirvec [0], self.segs [0].dirvec [1]) > 0.01)")], ['vertical-exact']),
 ]
 REFACTORS = [
     ('power via accumulation loop', [(M + 'compute', "        self.power = sum (s.power for s in self.sources)",
                                      "        p = 0\n        for s in self.sources:\n            p += s.power\n        self.power = p")]),
     ('power via np.sum of list', [(M + 'compute', "sum (s.power for s in self.sources)", "np.sum ([src.power for src in self.sources])")]),
     ('power formula reordered', [(E + 'power', "(0.5 * self.voltage * np.conj (self.current)).real", "np.real (np.conjugate (self.current) * self.voltage) / 2")]),
+    ('vertical test by exact comparisons', [('pulse.Pulse.is_non_vertical_grounded', "        return (   (self.ground [0] or self.ground [1])\n               and (self.segs [0].dirvec [0] or self.segs [0].dirvec [1])\n               )", "        return bool (self.ground.any () and (self.segs [0].dirvec [0] != 0 or self.segs [0].dirvec [1] != 0))")]),
 ]
